@@ -76,6 +76,8 @@ def shims_for(size=None, specs=None) -> Shims:
     s.add(AR, str=str_shim)
     s.add(R, quote=quote_model)
     s.add(DS, _cookie_is_legal_key=legal_key_shim()).add_compiled_regexes(DS)
+    from .c13 import _urlsplit_stub
+    s.add(DS, urlsplit=_urlsplit_stub)  # URL(<symbolic text>): only str(url) is needed by a redirect
     return s
 
 
@@ -94,7 +96,7 @@ def scope(method="GET", headers=()):
     return {"type": "http", "method": method, "path": "/", "root_path": "", "query_string": b"", "headers": list(headers), "scheme": "http", "server": ("h", 80)}
 
 
-def run_and_check(e: Engine, iface: str, app, method="GET", hdrs=(), send_fault_at=None, close_after=None, use_loop=False):
+def run_and_check(e: Engine, iface: str, app, method="GET", hdrs=(), send_fault_at=None, close_after=None, use_loop=False, receive_raises=False):
     if iface == "wsgi":
         env = environ(method, **{("HTTP_" + k.upper().replace("-", "_")): v for k, v in hdrs})
         ev, done = gw.run_wsgi(app, env, close_after=close_after)
@@ -102,7 +104,7 @@ def run_and_check(e: Engine, iface: str, app, method="GET", hdrs=(), send_fault_
         gw.check_wsgi(e, ev, done and not raised)
         return ev, done and not raised, raised
     sc = scope(method, [(k.encode(), v.encode("latin-1")) for k, v in hdrs])
-    ev, done = gw.run_asgi(app, sc, send_fault_at=send_fault_at, use_loop=use_loop)
+    ev, done = gw.run_asgi(app, sc, send_fault_at=send_fault_at, use_loop=use_loop, receive_raises=receive_raises)
     raised = [x for x in ev if x[0] == "raise"]
     gw.check_asgi(e, ev, done)
     return ev, done, raised
@@ -126,6 +128,8 @@ def build_small(iface: str, recipe: str, sym: Dict[str, Any]):
         r = M.JSONResponse({"a": [1, "é", None]}, st, headers)
     elif recipe == "redirect":
         r = M.RedirectResponse(sym.get("url", "/x"), st if st != 200 else 307, headers)
+    elif recipe == "redirect-urlobj":  # the target as a baize URL object (request.url.replace(...)) instead of a str
+        r = M.RedirectResponse(DS.URL(sym.get("url", "/x")), st if st != 200 else 307, headers)
     else:
         raise KeyError(recipe)
     if "cname" in sym:
@@ -277,6 +281,8 @@ def concrete_small(iface, recipe, wit, job) -> Optional[str]:
             app = build_small(iface, recipe, sym)
         except UnicodeEncodeError:
             return None
+        except Exception as ex:  # noqa: BLE001
+            return f"exception {type(ex).__name__} while constructing the response: {ex}"
         pe = _PlainEngine()
         for fault in ([None, 0, 1, 2] if (iface == "asgi" and job.get("fault")) else [None]):
             if fault is not None:
@@ -346,7 +352,8 @@ def job_stream(job) -> report.JobResult:
             # client saw must be a legal prefix, and the NEXT client still gets a complete legal sequence
             ev0, done0 = gw.run_asgi(app, scope("GET"), receive_script=[{"type": "http.disconnect"}], use_loop=True)
             gw.check_asgi(e, ev0, done0)
-        ev, done, raised = run_and_check(e, iface, app, send_fault_at=fault, close_after=close_after, use_loop=(iface == "asgi"))
+        ev, done, raised = run_and_check(e, iface, app, send_fault_at=fault, close_after=close_after, use_loop=(iface == "asgi"),
+                                         receive_raises=bool(job.get("receive_raises")))
         for x in raised:
             if not isinstance(x[1], (Boom, gw.ClientGone)):
                 raise Fail(f"exception:{type(x[1]).__name__}", repr(x[1]))
@@ -365,7 +372,7 @@ def job_stream(job) -> report.JobResult:
                 ev0, done0 = gw.run_asgi(app, scope("GET"), receive_script=[{"type": "http.disconnect"}], use_loop=True)
                 gw.check_asgi(_PlainEngine(), ev0, done0)
             ev, done, raised = run_and_check(_PlainEngine(), iface, app, send_fault_at=wit["raw"].get("fault"), close_after=wit["raw"].get("close_after"),
-                                             use_loop=(iface == "asgi"))
+                                             use_loop=(iface == "asgi"), receive_raises=bool(job.get("receive_raises")))
             for x in raised:
                 if not isinstance(x[1], (Boom, gw.ClientGone)):
                     return f"exception {type(x[1]).__name__}: {x[1]}"
@@ -502,6 +509,8 @@ def jobs(tier: str):
             out.append(dict(name=f"small/{iface}/text-bytes/body{n}/HEAD", kind="small", iface=iface, recipe="text-bytes", what="body", n=n, method="HEAD"))
             out.append(dict(name=f"small/{iface}/text-str/text{n}", kind="small", iface=iface, recipe="text-str", what="text", n=n))
             out.append(dict(name=f"small/{iface}/redirect/url{n}", kind="small", iface=iface, recipe="redirect", what="url", n=n, weight=8 ** n))
+            if n <= 2:
+                out.append(dict(name=f"small/{iface}/redirect-urlobj/url{n}", kind="small", iface=iface, recipe="redirect-urlobj", what="url", n=n, weight=8 ** n))
         for cls in ("stream", "sse"):
             for n in range(0, b["stream_items"] + 1):
                 out.append(dict(name=f"stream/{iface}/{cls}/n{n}", kind="stream", iface=iface, cls=cls, items=n, weight=20 * (n + 1) ** 2))
@@ -512,6 +521,8 @@ def jobs(tier: str):
     for iface in ("wsgi", "asgi"):
         for app in ("files", "pages"):
             out.append(dict(name=f"static/{iface}/{app}/file-vanishes", kind="static-vanish", iface=iface, app=app))
+    for cls in ("stream", "sse"):
+        out.append(dict(name=f"stream/asgi/{cls}/n2/receive-channel-raises", kind="stream", iface="asgi", cls=cls, items=2, receive_raises=True, weight=30))
     for cls in ("stream", "sse"):
         for n in (1, 2):
             out.append(dict(name=f"stream/asgi/{cls}/n{n}/second-client-after-a-disconnect", kind="stream", iface="asgi", cls=cls, items=n, reuse=True, weight=30))
